@@ -1,0 +1,10 @@
+//go:build verif
+
+// Ghost lemmas for the govc verifier (/verif). This file is guarded by the build tag "verif": nothing in it is
+// ever compiled into fabio. Each function below is a statement (its contract in contracts_verif.go) together with
+// its proof (its body: empty when the solver needs no help, recursive for a proof by induction).
+package route
+
+// lemmaLongestPrefixFirst: in a list of routes in descending path order, if the paths of routes k0 < k are both
+// prefixes of uri then the later one is not longer.
+func lemmaLongestPrefixFirst(rt Routes, uri string, k0, k int) {}
